@@ -242,6 +242,53 @@ def acquire_mapping(v, tier):
     return n
 
 
+def acquire_while_busy(v):
+    """An ACQUIRE that arrives while the IKE_SA with that peer has a request of its own outstanding is queued on that IKE_SA (no second IKE_SA, no
+    IKE_SA_INIT) and negotiated on it as soon as the response arrives - for every kind of outstanding request."""
+    n = 0
+    for kind in ('newchild', 'rekchild', 'delchild', 'dpd', 'rekeyike'):
+        w = wd.World(seed=common.SEED, opts={'dpd': 50, 'lifetime': 500})
+        try:
+            w.establish('A')
+            sa = w.sas('A')[0]
+            if kind == 'newchild':
+                req = w.acquire('A', sport=0, dport=0)
+            elif kind in ('rekchild', 'delchild'):
+                req = w.expire('A', bytes(sa.child_sas[0].inbound_spi), kind == 'delchild')
+            elif kind == 'dpd':
+                sa.start_dpd_at = w.now - 1
+                req = w.timer('A', sa, 'check_dead_peer_detection_timer')
+            else:
+                sa.rekey_ike_sa_at = w.now - 1
+                req = w.timer('A', sa, 'check_rekey_ike_sa_timer')
+            if req is None:
+                raise common.MachineryError(f'no {kind} request was produced')
+            before = [bytes(s.my_spi) for s in w.ctl['A'].ike_sas]
+            out = w.acquire('A', sport=0, dport=0)
+            n += 1
+            after = [bytes(s.my_spi) for s in w.ctl['A'].ike_sas]
+            if out is not None or after != before:
+                what = 'an IKE_SA_INIT request is sent' if out is not None and W.dec_header(bytes(out))['xchg'] == W.IKE_SA_INIT else 'a request is sent at once'
+                v.violation(f'ACQUIRE while a {kind} request is outstanding on the IKE_SA with that peer: {what}, IKE_SAs {len(before)} -> {len(after)} '
+                            '(it must wait for that IKE_SA)', {'outstanding': kind}, signature={'component': 'acquire:busy', 'outstanding': kind})
+                continue
+            res = w.dispatch('B', req, 'A')
+            nxt = w.dispatch('A', res, 'B')
+            if kind == 'rekeyike':
+                continue                     # the follow-up is the delete of the old IKE_SA; the queued ACQUIRE moves on with the successor (C09 / C16)
+            if kind == 'rekchild' and nxt is not None and W.dec_header(bytes(nxt))['xchg'] == W.INFORMATIONAL:
+                res = w.dispatch('B', nxt, 'A')          # delete of the replaced CHILD_SA first
+                nxt = w.dispatch('A', res, 'B')
+            if nxt is None or W.dec_header(bytes(nxt))['xchg'] != W.CREATE_CHILD_SA or W.dec_header(bytes(nxt))['spi_i'] != W.dec_header(bytes(req))['spi_i']:
+                v.violation(f'the ACQUIRE queued behind a {kind} request is not negotiated on the same IKE_SA once the response arrives', {'outstanding': kind},
+                            signature={'component': 'acquire:queued', 'outstanding': kind})
+        except wd.Escape as ex:
+            v.violation(f'acquire while busy ({kind}): {ex}', {}, signature={'component': 'acquire:busy-escape', 'outstanding': kind})
+        finally:
+            w.close()
+    return n
+
+
 def cfg(max_steps):
     return ('SPECIFICATION Spec\nCONSTANTS\n Configs = {{1}, {1, 2}, {3}, {1, 2, 3}, {4, 5}, {1, 2, 3, 4, 5}}\n MaxSteps = %d\nINVARIANT AfterStart\nINVARIANT AcquireMaps\nPROPERTY AfterStop\n'
             'VIEW View\nCHECK_DEADLOCK FALSE\n' % max_steps)
@@ -273,9 +320,17 @@ def run(tier, replay=None):
         if err:
             v.violation(err, {'behaviour': [s[0] for s in steps[:done + 1]]}, signature={'component': 'spd', 'what': err.split(':')[0][:40]})
     n_acq = acquire_mapping(v, tier)
+    n_busy = acquire_while_busy(v)
+    # Ike.tla CtlAcquire (queue on the IKE_SA with that peer / start one): every divergence right after an ACQUIRE in the replayed behaviours belongs here
+    from checks import ikeprop
+    ike_cov = dict(ikeprop.run(v, ['init'] if tier == 'quick' else ['init', 'estab', 'init3'], limit=700 if tier == 'quick' else None,
+                               owns=lambda mm: mm['at'].startswith('CtlAcquire')))
+    for k in list(ike_cov):
+        v.coverage.pop(k, None)
+    v.coverage['ike_tla_ctlacquire'] = {k: ike_cov[k] for k in ('states', 'transitions', 'traces_validated_against_impl', 'steps_compared', 'edges_replayed', 'edges_total')}
     v.coverage.update({'states': res.distinct, 'transitions': res.generated, 'traces_validated_against_impl': len(paths), 'steps_compared': steps_total,
-                       'graph_edges': len(g.edges), 'acquire_cases': n_acq,
+                       'graph_edges': len(g.edges), 'acquire_cases': n_acq, 'acquire_while_busy_cases': n_busy,
                        'samples': [{'behaviour': [g.edges[i][1] for i in max(paths, key=len)]}] if paths else []})
-    v.assumptions += ['three protect entries over two connections (IPv4 ESP transport, IPv4 AH tunnel with ports, IPv6 ESP tunnel with a large index)',
+    v.assumptions += ['five protect entries over two connections incl. networks of the other family than the tunnel; three (IPv4 ESP transport, IPv4 AH tunnel with ports, IPv6 ESP tunnel with a large index)',
                       'expected policies are read off the configuration dictionary by the harness, not by configuration.py']
     return v.finish()
